@@ -90,6 +90,7 @@ func rulesC11(c *Ctx) {
 	}
 	sort.Strings(opNames)
 
+	runeWidthC11(c, mr, me)
 	// ---- C11.ops ----
 	c.Rule("C11.ops", "matchRegex, evaluated by constant propagation with the node's Op bound to every regexp/syntax operator, can report success only for OpLiteral, OpCapture, OpConcat, OpCharClass and OpAlternate — operators whose language is finite when their parts' are; repetition, any-char, empty-match and anchor operators always fail")
 	finite := map[string]bool{"OpLiteral": true, "OpCapture": true, "OpConcat": true, "OpCharClass": true, "OpAlternate": true}
@@ -601,4 +602,77 @@ func emptyClassC11(c *Ctx, ops map[string]int64) {
 	} else {
 		c.OK("C11.emptyclass", key, f.Pos(), "fails, so the condition is left as a regex")
 	}
+}
+
+// runeWidthC11: the characters of the pattern reach the literals at full width.
+func runeWidthC11(c *Ctx, fns ...*ssa.Function) {
+	c.Rule("C11.runewidth", "matchRegex and matchExactRegex never narrow a character of the pattern (a value read from a node's Rune table) to 8 bits on its way into a literal: a member above U+00FF would come out as another character, and one above U+007F as an invalid byte, so the literal no longer matches what the regex matched")
+	n := 0
+	fromRune := func(v ssa.Value) bool {
+		seen := map[ssa.Value]bool{}
+		var walk func(v ssa.Value, d int) bool
+		walk = func(v ssa.Value, d int) bool {
+			if d > 10 || seen[v] {
+				return false
+			}
+			seen[v] = true
+			switch x := v.(type) {
+			case *ssa.UnOp:
+				return walk(x.X, d+1)
+			case *ssa.IndexAddr:
+				return walk(x.X, d+1)
+			case *ssa.FieldAddr:
+				return fieldNameOf(x) == "Rune" || fieldNameOf(x) == "Rune0"
+			case *ssa.Convert:
+				return walk(x.X, d+1)
+			case *ssa.ChangeType:
+				return walk(x.X, d+1)
+			case *ssa.BinOp:
+				return walk(x.X, d+1) || walk(x.Y, d+1)
+			case *ssa.Phi:
+				for _, e := range x.Edges {
+					if walk(e, d+1) {
+						return true
+					}
+				}
+			case *ssa.Extract:
+				return walk(x.Tuple, d+1)
+			case *ssa.Next:
+				return walk(x.Iter, d+1)
+			case *ssa.Range:
+				return walk(x.X, d+1)
+			}
+			return false
+		}
+		return walk(v, 0)
+	}
+	for _, f := range fns {
+		if f == nil {
+			continue
+		}
+		for _, g := range append([]*ssa.Function{f}, f.AnonFuncs...) {
+			for _, b := range g.Blocks {
+				for _, in := range b.Instrs {
+					cv, ok := in.(*ssa.Convert)
+					if !ok {
+						continue
+					}
+					n++
+					tb, ok1 := cv.Type().Underlying().(*types.Basic)
+					sb, ok2 := cv.X.Type().Underlying().(*types.Basic)
+					if !ok1 || !ok2 || sb.Info()&types.IsInteger == 0 || (tb.Kind() != types.Uint8 && tb.Kind() != types.Int8) || sb.Kind() == types.Uint8 || sb.Kind() == types.Int8 {
+						continue
+					}
+					key := fmt.Sprintf("%s: %s -> %s", g.Name(), sb.Name(), tb.Name())
+					if fromRune(cv.X) {
+						c.Bad("C11.runewidth", key, cv.Pos(), "a character taken from the node's Rune table is narrowed to 8 bits before it becomes (part of) a literal")
+					} else {
+						c.Unk("C11.runewidth", key, cv.Pos(), "an integer is narrowed to 8 bits; whether it is a character of the pattern is not decided")
+					}
+				}
+			}
+		}
+	}
+	c.OK("C11.runewidth", "conversions examined", 0, fmt.Sprintf("%d conversions in matchRegex/matchExactRegex", n))
+	c.Floor("C11.runewidth", n, 1)
 }
